@@ -24,7 +24,7 @@ func init() {
 	}
 	Register(&Spec{
 		ID:          "C04",
-		Explanation: "Decides three necessary conditions of write/read-back agreement: (R1) for every width the struct getter and setter and every typed list At/Set pair use the same guard with the same size and the segment accessor of that same width (table of 4+1 struct pairs and 11 list pairs, compared with the schema width table), and the setters have their confirmed normal forms; (R2) alloc is the only function that lengthens a segment, hands out the old length as the address of the new object, extends by the padded size under a checked address computation and zero-fills the new region; (R3) the four framers agree on the header: size from streamHeaderSize, segment count minus one in word 0, each segment's length in words at 4+4i, and readers take exactly those fields. Does NOT decide round-trip equality, non-interference between fields or independence of chunking.",
+		Explanation: "Decides three necessary conditions of write/read-back agreement: (R1) for every width the struct getter and setter and every typed list At/Set pair use the same guard with the same size and the segment accessor of that same width (table of 4+1 struct pairs and 11 list pairs, compared with the schema width table), and the setters have their confirmed normal forms; (R2) alloc is the only function that lengthens a segment, hands out the old length as the address of the new object, extends by the padded size under a checked address computation and zero-fills the new region; (R3) the four framers agree on the header: size from streamHeaderSize, segment count minus one in word 0, each segment's length in words at 4+4i, and readers take exactly those fields. The zero fill of alloc must lie on every path to a success return. Does NOT decide round-trip equality, non-interference between fields or independence of chunking.",
 		Run:         runC04,
 	})
 }
